@@ -6,7 +6,8 @@ from core import Case, nlist
 from pyerr import canon_call, exc_code
 
 PROP = 'C18'
-COQ_TARGETS = ['theories/AddrFacts.vo', 'theories/AddrParse.vo', 'theories/AddrOld.vo', 'theories/AddrEntry.vo', 'theories/AddrIp.vo']
+COQ_TARGETS = ['theories/AddrFacts.vo', 'theories/AddrParse.vo', 'theories/AddrOld.vo', 'theories/AddrEntry.vo', 'theories/AddrIp.vo',
+               'theories/AddrWild.vo']
 COQ_IMPORTS = 'From Bac Require Import Base Addr.'
 RULE = ('cases: grammar-generated address texts over every notation (station 0..255 all, x networks {0,1,65533,65534,65535,65536,99999}; '
         'dotted quads over boundary octets x mask lengths 0..33,99 x ports {0,1,47807,47808,47823,47824,65535,65536,70000}; 0x / X\'\' octet '
@@ -15,7 +16,11 @@ RULE = ('cases: grammar-generated address texts over every notation (station 0..
         'attributes, str(), _tuple() under both route_aware settings); str() re-parsed; pairs from a pool of equivalent spellings compared '
         'with == both ways and by _tuple(); every constructor x argument type (int / bytes / bytearray / hex text) x octet-string length 1..8 with the '
         'last two octets on and next to 0xBAC0..0xBACF, observed and re-parsed from str(); == against un-coerced arguments; pack/unpack_ip_addr; random and single-character-mutated '
-        'strings.  non-trivial = the implementation accepts the input, or the input is a mutated/random string of length >= 1, or a '
+        'strings; ARGUMENT-TYPE grid for the two wildcard tests that precede the type dispatch: octet strings (bytes and bytearray) that spell a textual notation in ASCII '
+        '("*", "*:*", "5", "5:*", "0x2a", "1.2.3.4" ... and a sample of the text stream) and every one-octet string 0..255 through Address(x), Address(net, x), '
+        'LocalStation(x), RemoteStation(net, x); texts wrapped in white space / control characters / other case (" *", "*\\t", "*:* ", "0X01", "x\'01\'"); Address objects '
+        '(broadcasts with and without route, stations, null) as constructor arguments; PROCESS histories on never-seen texts (random 3..7-octet hex / X\'\' / IP:port texts): '
+        'Address(net, t) before Address(t), an object re-decoded or modified before the same text is parsed again, each construction observed when it is made.  non-trivial = the implementation accepts the input, or the input is a mutated/random string of length >= 1, or a '
         'range-edge refusal; distinct by (operation, input).  direct: distinct constructor calls whose denotation the statement fixes '
         '(accepted with the denoted fields, or refused), plus distinct ordered pairs of pool objects compared with == / hash / dict.')
 TRUSTED = ['model coq/theories/Addr.v written by hand after pdu.py:32-607 (regex cascade re-expressed as a splitting parser); tie = correspondence',
@@ -44,6 +49,7 @@ def _pdu():
 
 # ---------------------------------------------------------------- specs: how an address is constructed
 # arg:  ('int', z) ('bytes', b) ('bytearray', b) ('str', s) ('tup', host(str|int), port) ('other', name)
+#       ('addr', ctor) = an Address object built by `ctor` passed as the argument
 # ctor: ('A0',) ('A1', arg) ('A2', net, arg) ('LS', arg) ('RS', net, arg) ('LB',) ('RB', net) ('GB',)
 OTHERS = {'float': 1.5, 'none': None, 'list': [1, 2]}
 
@@ -56,6 +62,7 @@ def pyarg(a):
     if k == 'str': return a[1]
     if k == 'tup': return (a[1], a[2])
     if k == 'other': return OTHERS[a[1]]
+    if k == 'addr': return build(a[1])
     raise AssertionError(a)
 
 
@@ -76,6 +83,7 @@ def coqarg(a):
         h = '(HStr %s)' % coqstr(a[1]) if isinstance(a[1], str) else '(HInt %s)' % z(a[1])
         return '(ATuple %s %s)' % (h, z(a[2]))
     if k == 'other': return 'AOther'
+    if k == 'addr': return '(arg_of %s)' % coqctor(a[1])
     raise AssertionError(a)
 
 
@@ -110,6 +118,7 @@ def jspec(spec):
     """JSON-able form of a spec (bytes -> hex) and back"""
     def ja(a):
         if a[0] in ('bytes', 'bytearray'): return [a[0], bytes(a[1]).hex()]
+        if a[0] == 'addr': return ['addr', jspec(a[1])]
         return list(a)
     return [ja(x) if isinstance(x, tuple) else x for x in spec]
 
@@ -117,6 +126,7 @@ def jspec(spec):
 def unjspec(j):
     def ua(a):
         if a[0] in ('bytes', 'bytearray'): return (a[0], bytes.fromhex(a[1]))
+        if a[0] == 'addr': return ('addr', unjspec(a[1]))
         return tuple(a)
     return tuple(ua(x) if isinstance(x, list) else x for x in j)
 
@@ -197,6 +207,10 @@ def canon_addr(x):
 
 def impl_addr(spec):
     return canon_call(lambda: build(spec), canon_addr)
+
+
+def impl_addr_of(x, err):
+    return [1, exc_code(err)] if x is None else [0] + canon_addr(x)
 
 
 def impl_reparse(spec):
@@ -402,6 +416,171 @@ def valid_texts(rng, tier):
     return out
 
 
+# ---- argument-type grid: the tests `addr == "*"` / `addr == "*:*"` precede the dispatch on the argument's type
+SPELL = ['*', '*:*', '*\n', '*:*\n', ' *', '* ', '**', '*:', ':*', '*:*:', '*:*\x00', '*@5', '*:*@5', '5', '42', '255', '256', '007', '5:*', '0:*', '65535:*',
+         '5:7', '*:5', '5@6', '0x2a', '0x2A', '0x0102', "X'2a'", "X'2A'", '1.2.3.4', '1.2.3', '1.2.3.4:1', '1:2:3', 'Null', 'lo', '\n', ' ', ':', '@', '.']
+
+
+def text_octets(rng, tier, texts):
+    """octet strings that SPELL a textual notation in ASCII: raw octets are a station notation of their own and must never be
+    read as text (b'*' is the one-octet station 0x2A, b'*:*' the three-octet station 0x2A3A2A)"""
+    out = [t.encode('latin-1') for t in SPELL]
+    short = sorted({t for t in texts if 1 <= len(t) <= 8 and all(ord(c) < 256 for c in t)})
+    out += [t.encode('latin-1') for t in rng.sample(short, min(len(short), 30 if tier == 'quick' else 400))]
+    seen, res = set(), []
+    for b in out:
+        if b not in seen:
+            seen.add(b); res.append(b)
+    return res
+
+
+def octet_ctors(b, nets=(9,)):
+    """every entry point that takes raw octets x bytes / bytearray"""
+    sp = []
+    for k in ('bytes', 'bytearray'):
+        sp += [('A1', (k, b)), ('LS', (k, b))]
+        for n in nets:
+            sp += [('A2', n, (k, b)), ('RS', n, (k, b))]
+    return sp
+
+
+WRAPS = [' ', '\t', '\r', '\x0b', '\x0c', '\x00', '\r\n', '\n', '  ']
+WRAP_BASE = ['*', '*:*', '5', '5:*', '5:7', '0x0102', '0x0a', "X'0a'", "5:X'0a'", '1.2.3.4', '1.2.3.4/24:47809', '5:0x0a', '01:02:03:04:05:0a']
+
+
+def wrapped_texts(rng, tier, texts):
+    """valid texts with surrounding / inner white space and control characters, and in the other letter case"""
+    base = WRAP_BASE + rng.sample([t for t in texts if t], 8 if tier == 'quick' else 100)
+    out = []
+    for t in base:
+        for w in WRAPS:
+            out += [w + t, t + w]
+        out += [t.upper(), t.lower(), t.swapcase(), t.replace(':', ' :'), t.replace(':', ': '), t + t, t + ':' + t]
+    seen, res = set(), []
+    for t in out:
+        if t not in seen:
+            seen.add(t); res.append(t)
+    return res
+
+
+# Address objects as constructor arguments (an object that == a broadcast is accepted, see Addr.v decode_address)
+ADDR_OBJECTS = [('LB',), ('GB',), ('A1', ('str', '*')), ('A1', ('str', '*:*')), ('A1', ('str', '*@5')), ('A1', ('str', '*:*@5')), ('A1', ('str', '*@1.2.3.4')),
+                ('RB', 5), ('A2', 5, ('str', '*')), ('LS', ('int', 42)), ('A1', ('str', '5')), ('A1', ('bytes', b'*')), ('A1', ('bytes', b'*:*')),
+                ('RS', 5, ('int', 42)), ('A0',), ('A1', ('str', '1.2.3.4')), ('A1', ('str', '5:*@6'))]
+
+
+def addr_arg_specs():
+    out = []
+    for o in ADDR_OBJECTS:
+        a = ('addr', o)
+        out += [('A1', a), ('A2', 9, a), ('A2', 65535, a), ('LS', a), ('RS', 9, a)]
+    out += [('A1', ('addr', ('A1', ('addr', ('LB',))))), ('A2', 7, ('addr', ('A1', ('addr', ('GB',)))))]
+    return out
+
+
+# ---- process histories: constructions (and modifications of the objects built) that precede a construction in the same process
+def fresh_text(rng):
+    """a local-station text that has practically never been parsed before in this process (3..7 random octets / random IP and port)"""
+    k = rng.randrange(6)
+    b = bytes(rng.randrange(256) for _ in range(rng.randrange(3, 8)))
+    if k == 0: return '0x' + b.hex()
+    if k == 1: return "X'" + b.hex().upper() + "'"
+    if k == 2: return "X'" + b.hex() + "'"
+    q = '.'.join(str(rng.randrange(1, 256)) for _ in range(4))
+    if k == 3: return '%s:%d' % (q, rng.randrange(1024, 65536))
+    if k == 4: return '%s/%d:%d' % (q, rng.randrange(33), rng.randrange(1024, 65536))
+    return '0x' + b.hex().upper()
+
+
+def sequences(rng, tier, count):
+    """step lists: ('new', ctor) builds and observes an object; ('redecode', i, arg) calls decode_address(arg) on the i-th object
+    built; ('set', i, field, value) assigns one of its fields (what the two-argument constructor does to itself)"""
+    others = [('str', '7'), ('str', '5:*'), ('str', '*'), ('int', 9), ('str', '6:0x0102@9'), ('bytes', b'\x01\x02'), ('str', 'bad'), ('str', '5:256')]
+    out = []
+    for i in range(count):
+        t = ('str', fresh_text(rng))
+        n1, n2 = rng.sample([0, 1, 5, 9, 65534], 2)
+        k = i % 7
+        if k == 0: st = [('new', ('A2', n1, t)), ('new', ('A1', t)), ('new', ('A2', n2, t)), ('new', ('A1', t))]
+        elif k == 1: st = [('new', ('A1', t)), ('new', ('A2', n1, t)), ('new', ('A1', t)), ('new', ('A2', n2, t))]
+        elif k == 2: st = [('new', ('A1', t)), ('redecode', 0, rng.choice(others)), ('new', ('A1', t)), ('new', ('A2', n1, t))]
+        elif k == 3: st = [('new', ('A1', t)), ('set', 0, rng.choice(['addrNet', 'addrType', 'addrAddr', 'addrRoute'])), ('new', ('A1', t)), ('new', ('A2', n1, t))]
+        elif k == 4: st = [('new', ('A2', rng.choice([65535, -1, 70000]), t)), ('new', ('A2', n1, t)), ('new', ('A1', t))]
+        elif k == 5:
+            r = ('str', '%d:%s' % (n1, t[1]))          # a remote text, then the object is re-used for something else
+            st = [('new', ('A1', r)), ('redecode', 0, rng.choice(others)), ('new', ('A1', r)), ('new', ('A1', t))]
+        else:
+            m = bytes(rng.randrange(256) for _ in range(rng.randrange(1, 8)))
+            kind = rng.choice(['bytes', 'bytearray'])
+            st = [('new', ('A2', n1, (kind, m))), ('new', ('A1', (kind, m))), ('new', ('LS', (kind, m))), ('redecode', 2, rng.choice(others)),
+                  ('new', ('LS', (kind, m))), ('new', ('RS', n2, (kind, m)))]
+        out.append(st)
+    return out
+
+
+SET_VALUES = {'addrNet': 7, 'addrType': 4, 'addrAddr': b'\xee', 'addrRoute': None}
+
+
+def jsteps(steps):
+    out = []
+    for st in steps:
+        if st[0] == 'new': out.append(['new', jspec(st[1])])
+        elif st[0] == 'redecode': out.append(['redecode', st[1], jspec((st[2],))[0]])
+        else: out.append(list(st))
+    return out
+
+
+def unjsteps(j):
+    out = []
+    for st in j:
+        if st[0] == 'new': out.append(('new', unjspec(st[1])))
+        elif st[0] == 'redecode': out.append(('redecode', st[1], unjspec([st[2]])[0]))
+        else: out.append(tuple(st))
+    return out
+
+
+def run_steps(steps, on_new):
+    """run a process history; on_new(index of step, ctor, object or None, exception or None) at every construction.
+    Returns the objects built (None where refused) and the set of indices of objects modified afterwards."""
+    P = _pdu()
+    objs, touched = [], set()
+    for i, st in enumerate(steps):
+        if st[0] == 'new':
+            try:
+                x, err = build(st[1]), None
+            except Exception as e:
+                x, err = None, e
+            objs.append(x)
+            on_new(i, st[1], x, err)
+        elif objs[st[1]] is not None:
+            touched.add(st[1])
+            if st[0] == 'redecode':
+                try:
+                    objs[st[1]].decode_address(pyarg(st[2]))
+                except Exception:
+                    pass
+            else:
+                v = SET_VALUES[st[2]]
+                setattr(objs[st[1]], st[2], P.Address(99) if st[2] == 'addrRoute' else v)
+    return objs, touched
+
+
+def impl_seq(steps):
+    out = []
+
+    def on_new(i, spec, x, err):
+        out.extend([1, exc_code(err)] if x is None else [0] + canon_addr(x))
+    run_steps(steps, on_new)
+    return out
+
+
+def case_seq(steps):
+    exp = impl_seq(steps)
+    news = [st[1] for st in steps if st[0] == 'new']
+    return Case('process-history', 'canon_seq [%s]' % ';'.join(coqctor(sp) for sp in news), exp, key=('seq', repr(steps)), nontrivial=True,
+                desc={'op': 'sequence', 'steps': jsteps(steps)})
+
+
 TAILS = [0xBAC0, 0xBAC1, 0xBACF, 0xBAD0, 0xBABF, 0x0000, 0xFFFF]
 
 
@@ -522,6 +701,29 @@ def cases(rng, tier):
         out.append(case_addr(S(mutate(rng, rng.choice(base))), 'mutated'))
     for _ in range(500 if tier == 'quick' else 4000):
         out.append(case_addr(S(''.join(rng.choice(ALPHABET) for _ in range(rng.randrange(0, 9)))), 'random'))
+    # argument-type grid for the wildcard tests: octets that spell a notation, every one-octet string, wrapped texts, Address objects
+    for b in text_octets(rng, tier, texts):
+        for sp in octet_ctors(b, nets=(rng.choice([0, 1, 9, 65534]),)):
+            out.append(case_addr(sp, 'text-octets'))
+        out.append(case_reparse(('A1', ('bytes', b))))
+        out.append(case_reparse(('RS', 9, ('bytearray', b))))
+    for v in range(256):
+        k, k2 = (('bytes', 'bytearray') if v % 2 else ('bytearray', 'bytes'))
+        out.append(case_addr(('A1', (k, bytes([v]))), 'one-octet'))
+        out.append(case_addr(('A2', 1 + v, (k2, bytes([v]))), 'one-octet'))
+        if tier != 'quick' or v in (0, 41, 42, 43, 58, 255):
+            out.append(case_addr(('LS', (k2, bytes([v]))), 'one-octet'))
+            out.append(case_addr(('RS', 65534, (k, bytes([v]))), 'one-octet'))
+    for t in wrapped_texts(rng, tier, texts):
+        out.append(case_addr(S(t), 'mutated'))
+    for sp in addr_arg_specs():
+        out.append(case_addr(sp, 'addr-object'))
+    for o in ADDR_OBJECTS:
+        for sa in [('LB',), ('GB',), ('LS', ('int', 42)), ('A1', ('str', '*@5')), ('RB', 5)]:
+            out.append(case_eqc(sa, ('addr', o)))
+    # process histories on never-seen texts: each construction observed when it is made
+    for st in sequences(rng, tier, 42 if tier == 'quick' else 420):
+        out.append(case_seq(st))
     # int / bytes / bytearray / other
     for v in list(range(-2, 258)) + [65535, 10 ** 12, -10 ** 12]:
         out.append(case_addr(('A1', ('int', v)), 'int'))
@@ -707,6 +909,7 @@ def denoted_of_spec(spec):
                 return ('mac', ipaddress.IPv4Address(h).packed + p.to_bytes(2, 'big'), None)
             except ValueError:
                 return UNSPEC
+        if a[0] == 'addr': return UNSPEC       # an Address object as argument is not a notation of the statement
         if a[0] == 'str' and allow_text:
             e = spec_parse(a[1])
             if e is None or e is UNSPEC: return e
@@ -741,6 +944,8 @@ def direct(rng, tier, focus=()):
        D1 every accepted notation yields the denoted type / network / octets / IP values (ipaddress as oracle);
        D2 what denotes nothing (network > 65534, station > 255, port > 65535, mask > 32, stray text) is refused (any exception);
        D3 Address(str(a)) == a with equal hash, for route-free non-null addresses with >= 1 octet;
+       D6 a constructor call gives the denoted address whatever was constructed, re-decoded or modified earlier in the process
+          (never-seen texts, Address(net, t) before Address(t)), and does not change objects built before;
        D5 decode_address on an object that already holds state (earlier accepted / refused notation, typed constructor) gives the same
           address as a fresh Address(notation): fields, str, ==, hash, dict membership;
        D4 == is reflexive, symmetric, transitive and holds exactly between spellings of the same address;
@@ -852,6 +1057,18 @@ def direct(rng, tier, focus=()):
             specs += [('A1', ('bytes', b)), ('A1', ('bytearray', b)), ('LS', ('bytes', b)), ('RS', 9, ('bytes', b)), ('A2', 9, ('bytes', b))]
     for m in mac_grid(rng, 'thorough') + [rnd_octets(rng, rng.randrange(1, 9)) for _ in range(40 if tier == 'quick' else 2000)]:
         specs += ctor_grid(m, nets=(0, 1, 65534))
+    # argument-type grid of the wildcard tests: every one-octet string and the octet strings that spell a notation, as bytes and
+    # bytearray at every entry point; texts wrapped in white space / other case; Address objects as arguments
+    for v in range(256):
+        specs += octet_ctors(bytes([v]), nets=(0, 65534))
+    for b in text_octets(rng, tier, texts):
+        if b:
+            specs += octet_ctors(b, nets=(0, 9, 65534))
+            specs += [S('0x' + b.hex()), S("X'" + b.hex().upper() + "'"), S('9:0x' + b.hex())]
+    for t in wrapped_texts(rng, tier, texts):
+        specs += [S(t), ('A2', 9, ('str', t))]
+    addr_specs = addr_arg_specs()
+    specs += addr_specs
     specs += [('LB',), ('GB',), ('A0',)]
     for d in focus:
         if isinstance(d, dict):
@@ -878,6 +1095,54 @@ def direct(rng, tier, focus=()):
             except Exception as e:
                 fail('bytearray-argument-raises', ('A1', ('bytearray', m)), ctor=cname, exc=repr(e)[:120])
     samples.append({'direct': 'denotation+refusal+print/parse', 'first_specs': [jspec(s) for s in specs[:3]], 'count': len(specs)})
+    # an Address object accepted as a constructor argument must give an address equal to it (behind the network for the two-argument form)
+    for sp in addr_specs:
+        n += 1
+        try:
+            arg = build(sp[-1][1])
+            x = build((sp[0],) + tuple(sp[1:-1]) + (('addr', sp[-1][1]),))
+        except Exception:
+            continue
+        try:
+            if sp[0] == 'A1':
+                ok = (x == arg and arg == x and hash(x) == hash(arg))
+            else:
+                ok = x.addrNet == sp[1] and x.addrAddr == arg.addrAddr and x.addrType in (3, 4)
+        except Exception:
+            ok = False
+        if not ok:
+            fail('address-object-argument-not-preserved', sp, got=[x.addrType, repr(x.addrNet), repr(x.addrAddr)])
+
+    # D6 process history: what was constructed (or done to the objects constructed) earlier in the process must not change what a
+    # constructor call yields, nor may a construction change an object built before
+    for steps in sequences(rng, tier, 210 if tier == 'quick' else 4200):
+        def on_new(i, spec, x, err, steps=steps):
+            nonlocal n
+            n += 1
+            exp = denoted_of_spec(spec)
+            why = None
+            if x is None:
+                if exp is not None and exp is not UNSPEC:
+                    why = 'refused with %r, denotes %r' % (err, exp)
+            elif exp is None:
+                why = 'accepted as (%r, %r, %r) but denotes nothing' % (x.addrType, x.addrNet, x.addrAddr)
+            elif exp is not UNSPEC:
+                why = check_fields(x, exp)
+                nontriv.add(('seq', repr(steps), i))
+            if why:
+                fail('process-history-dependent-address', spec, steps=jsteps(steps[:i + 1]), why=why[:200])
+        objs, touched = run_steps(steps, on_new)
+        # re-observe at the end: later constructions / modifications of OTHER objects must not have altered an untouched object
+        news = [st[1] for st in steps if st[0] == 'new']
+        for k, (sp, x) in enumerate(zip(news, objs)):
+            if x is None or k in touched: continue
+            n += 1
+            exp = denoted_of_spec(sp)
+            if exp is None or exp is UNSPEC: continue
+            why = check_fields(x, exp)
+            if why:
+                fail('object-changed-by-later-construction', sp, steps=jsteps(steps), index=k, why=why[:200])
+    samples.append({'direct': 'process history', 'example': jsteps(sequences(__import__('random').Random(1), 'quick', 1)[0])})
 
     # D5 object history: the final object of successive decode_address calls on ONE object is the address of the last notation
     for st, args in histories(rng, tier):
@@ -976,7 +1241,8 @@ def direct(rng, tier, focus=()):
         fail('dict-entries-per-address', ('A0',), entries=len(table), addresses=len({d for d, _, _ in objs}))
     samples.append({'direct': 'eq/hash/dict', 'objects': len(objs), 'denoted': len(plist)})
     return failures, {'evaluations': n, 'distinct_nontrivial': len(nontriv), 'exhaustive': True,
-                      'exhaustive_domain': 'station numbers 0..299 at every entry point; networks 65500..65599 at every entry point; mask lengths 0..34 on each sampled quad',
+                      'exhaustive_domain': 'station numbers 0..299 at every entry point; networks 65500..65599 at every entry point; mask lengths 0..34 on each sampled quad; '
+                                           'one-octet strings 0..255 as bytes and as bytearray at every entry point',
                       'samples': samples}
 
 
@@ -1000,6 +1266,14 @@ def replay(payload):
         return
     print('replay', f)
     sp = unjspec(f['spec'])
+    if 'steps' in f:
+        steps = unjsteps(f['steps'])
+
+        def show(i, spec, x, err):
+            print('  step %d %r -> %s   denotes %r' % (i, spec, impl_addr_of(x, err)[:12], denoted_of_spec(spec)))
+        run_steps(steps, show)
+        print('model (each construction on its own):', core.coq_eval(COQ_IMPORTS, 'canon_addr_r %s' % coqctor(sp))[0])
+        return
     if 'args' in f:
         args = list(unjspec(f['args']))
         print('one object, successive decode_address:', impl_hist(sp, args))
